@@ -393,6 +393,22 @@ func (a *admin) member() {
 	}
 }
 
+// monitor polls every node's status report through the task API (C19).
+func (a *admin) monitor() {
+	run := a.run
+	for !run.stop && (run.phase == "chaos" || run.phase == "settle") {
+		time.Sleep(run.cfg.HB / 2)
+		for _, ni := range run.liveIncs() {
+			if run.stop || !(run.phase == "chaos" || run.phase == "settle") {
+				return
+			}
+			if info, ok := a.getInfo(ni); ok && !ni.dead {
+				run.led.onInfo(ni, info)
+			}
+		}
+	}
+}
+
 func (a *admin) snapshot() {
 	run := a.run
 	live := run.liveIncs()
